@@ -243,6 +243,13 @@ def check_streams(ctx, d):
             s = solo_result(defn, raw)
             if s[0] == "exception":
                 ctx.count("solo.exception_excluded")
+                # a packet the reference model calls unrecognized (abstract dead end / several matching children) must be reported
+                # as UnrecognizedPacketTypeError: any other exception would end a generator instead of being skipped / yielded
+                mo = ref.walk(doc, raw)
+                if mo.status == "unrecognized" and not harness.has_dontcare(mo):
+                    ctx.violation(f"solo/unrecognized-raises-other-exception/{s[1]}/{mo.unrec_kind}",
+                                  f"model: unrecognized ({mo.unrec_kind}); parsing the packet on its own raised {s[1]}, which a generator does not catch",
+                                  {"doc": d, "raw": raw, "exception": s[1], "kind": mo.unrec_kind})
                 continue
             raws.append(raw)
             solos.append(s)
